@@ -69,6 +69,11 @@ def main():
             res["demo_without_patch_rc"] = d0[0] if d0 else None
         rc, out = sh("git -C %s apply %s" % (wt, os.path.join(sd, "patch.diff")))
         if rc != 0:
+            # the repository moved on since the change was written (later fix: commits): three-way merge
+            sh("git -C %s checkout -- . " % wt)
+            rc, out = sh("patch -p1 -F3 --no-backup-if-mismatch -i %s" % os.path.join(sd, "patch.diff"), cwd=wt)
+            res["applied_with_fuzz"] = rc == 0
+        if rc != 0:
             res["error"] = "patch does not apply: " + out[-1000:]
             print(res["error"])
             return res
